@@ -5,26 +5,58 @@ primary output, no other output assembly appears and cuts = breaks = joins = hap
 scaffold changes only names (prefix + rank by size) and order.
 
 Side conditions taken from the statement: every scaffold of at least one texel has a last contig of at least one
-texel; scaffolds begin and end with a contig (an input with terminal gap rows cannot be reproduced "with the same
-gaps" without contradicting C07); input names lie outside the generated namespaces and are listed in numeric-aware
-order, so that "same order" can be judged literally.
+texel; input names lie outside the generated namespaces and are listed in numeric-aware order, so that "same order" can
+be judged literally.
+
+Gap rows.  "The same gaps" is judged row by row: where the input has SEVERAL gap rows in a row between two contigs (legal
+in AGP and TPF, e.g. a contig-type gap followed by a scaffold-type gap) the output must have every one of them, in the same
+order, with its length and type - whichever way PretextView rounded the scaffold's length (down, up, or no rounding needed).
+Gap rows in front of the first or behind the last contig of an input scaffold separate no two contigs and no output
+scaffold may begin or end with a gap (C07): such terminal gap rows are the only input rows that may - and must - be missing
+from the output; they do count for the scaffold's length in the map.  One more side condition: runs of two or more gap rows
+are only generated in scaffolds of at least one texel, which the statement puts IN the map (a scaffold shorter than a texel
+that is absent from the map is rebuilt from its contigs, and whether its gap run must survive that is C07's question).
+
+Painted clause, on top of the returned assemblies: for every n-th all-painted case the output assemblies are asked for a
+second time from the same BuildAssembly (names and content must not depend on how often they are requested), and some
+all-painted cases are run through the pretext-to-asm command line with --autosome-prefix, twice in the same process: the
+scaffold names in the written primary file must be <prefix><rank by amount of sequence> both times.
 """
 
 import itertools
+import pathlib
 import random
+import tempfile
 from fractions import Fraction
 
+from . import cli_gen
 from . import pipeline_gen as pg
 from .common import Collector
+
+
+def strip_terminal_gaps(rows):
+    i, j = 0, len(rows)
+    while i < j and rows[i][0] == "G":
+        i += 1
+    while j > i and rows[j - 1][0] == "G":
+        j -= 1
+    return rows[i:j]
+
+
+def has_gap_run(rows):
+    return any(a[0] == "G" and b[0] == "G" for a, b in itertools.pairwise(rows))
 
 
 def in_domain(inp, bpt):
     f = pg.bptF(bpt)
     for s in inp:
-        rows = s["rows"]
-        if rows[0][0] != "F" or rows[-1][0] != "F":
+        core = strip_terminal_gaps(s["rows"])
+        if not core:
             return False
-        if Fraction(pg.rows_len(rows)) >= f and Fraction(pg.row_len(rows[-1])) < f:
+        if Fraction(pg.rows_len(s["rows"])) >= f:
+            if Fraction(pg.row_len(core[-1])) < f:
+                return False
+        elif has_gap_run(core):
             return False
     return True
 
@@ -41,7 +73,24 @@ def null_map(inp, bpt, roundings, absent, painted, prefix="SUPER_", via="objects
 
 
 def rows_of(rows):
+    """the rows an output scaffold must have: the input rows without gap rows in front of the first / behind the last contig"""
+    return [tuple(r[:5]) if r[0] == "F" else tuple(r) for r in strip_terminal_gaps(rows)]
+
+
+def plain(rows):
     return [tuple(r[:5]) if r[0] == "F" else tuple(r) for r in rows]
+
+
+def describe_difference(got, want):
+    """what differs between the rows of an output scaffold and the rows it must have, in words"""
+    if [r for r in got if r[0] == "F"] == [r for r in want if r[0] == "F"]:
+        gaps_g = [[tuple(g) for g in between] for _, between, _, _ in pg.adjacencies([list(r) for r in got])]
+        gaps_w = [[tuple(g) for g in between] for _, between, _, _ in pg.adjacencies([list(r) for r in want])]
+        for j, (g, w) in enumerate(zip(gaps_g, gaps_w, strict=True), 1):
+            if g != w:
+                return f"same contigs, but between contig {j} and {j + 1} the output has gap rows {g} where the input has {w}"
+        return "same contigs and inner gaps, but the output has terminal gap rows"
+    return "the contigs differ"
 
 
 def problems_of(case, run):
@@ -60,7 +109,7 @@ def problems_of(case, run):
     if prim is None:
         problems.append("no primary assembly")
         return problems
-    got = [(sc["name"], rows_of(sc["rows"])) for sc in prim["scaffolds"]]
+    got = [(sc["name"], plain(sc["rows"])) for sc in prim["scaffolds"]]
     painted_src = {sc[0][0] for sc in case["map"]["scaffolds"] if "Painted" in sc[0][4]}
     if not painted_src:
         want = [(s["name"], rows_of(s["rows"])) for s in inp]
@@ -70,7 +119,8 @@ def problems_of(case, run):
             else:
                 for (gn, gr), (wn, wr) in itertools.zip_longest(got, want, fillvalue=(None, None)):
                     if (gn, gr) != (wn, wr):
-                        problems.append(f"primary output differs from the input: got scaffold {gn!r} rows {gr}, input has {wn!r} rows {wr}")
+                        how = f" ({describe_difference(gr, wr)})" if gn == wn and gr is not None else ""
+                        problems.append(f"primary output differs from the input{how}: got scaffold {gn!r} rows {gr}, input has {wn!r} rows {wr}")
                         break
         return problems
     # painted null map: same content, names = prefix + rank by sequence length; unpainted (absent) ones unchanged
@@ -79,6 +129,9 @@ def problems_of(case, run):
     unplaced_want = sorted((n, r) for n, r in want_rows.items() if n not in painted_src)
     chrom = [(n, r) for n, r in got if n.startswith(prefix)]
     unplaced_got = sorted((n, r) for n, r in got if not n.startswith(prefix))
+    strange = [n for n, _ in unplaced_got if n not in want_rows]
+    if strange:
+        problems.append(f"scaffolds named {strange[:4]} in the primary output: a painted scaffold must be called {prefix}<rank by size> (autosome prefix {prefix!r}), an unpainted one keeps its input name")
     if unplaced_got != unplaced_want:
         problems.append(f"unpainted scaffolds changed: got {unplaced_got}, expected {unplaced_want}")
     numbers = []
@@ -99,12 +152,91 @@ def problems_of(case, run):
     return problems
 
 
+def second_request_problems(run):
+    """the output assemblies asked for a second time from the same BuildAssembly: same assemblies, names, rows"""
+    first = {k: [(sc["name"], plain(sc["rows"])) for sc in asm["scaffolds"]] for k, asm in run.out.items()}
+    with pg.quiet():
+        try:
+            again = pg.plain_out(run.build.assemblies_with_scaffolds_fused())
+        except Exception as e:  # noqa: BLE001
+            return [f"asking the same BuildAssembly for its output assemblies a second time fails: {type(e).__name__}: {str(e).splitlines()[0][:150] if str(e) else ''}"]
+    second = {k: [(sc["name"], plain(sc["rows"])) for sc in asm["scaffolds"]] for k, asm in again.items()}
+    if first != second:
+        names = {k: [n for n, _ in v] for k, v in second.items()}
+        return [f"asking the same BuildAssembly for its output assemblies a second time gives another answer: scaffold names {names}, the first time {({k: [n for n, _ in v] for k, v in first.items()})}"]
+    return []
+
+
+def agp_scaffolds(text):
+    """[(scaffold name, rows)] of a written AGP file (hand-written reader; no project code)"""
+    scaffolds = {}
+    for line in text.splitlines():
+        if not line.strip() or line.startswith("#"):
+            continue
+        cols = line.split("\t")
+        rows = scaffolds.setdefault(cols[0], [])
+        if cols[4] in ("U", "N"):
+            rows.append(("G", int(cols[5]), cols[6]))
+        else:
+            rows.append(("F", cols[5], int(cols[6]), int(cols[7]), {"+": 1, "-": -1}.get(cols[8], 0)))
+    return list(scaffolds.items())
+
+
+def cli_problems(case):
+    """
+    the all-painted null map through the real command line (in process, temporary directory, removed), with
+    --autosome-prefix <case prefix>, TWICE: each time the primary file must hold the input scaffolds, content unchanged,
+    named <prefix><rank by amount of sequence>, and nothing but a primary assembly may be written
+    """
+    inp = case["input"]
+    prefix = case["prefix"]
+    want = sorted(rows_of(s["rows"]) for s in inp)
+    problems = []
+    with tempfile.TemporaryDirectory() as d:
+        d = pathlib.Path(d)
+        (d / "asm.agp").write_text(pg.input_agp_text(inp))
+        (d / "pretext.agp").write_text(pg.pretext_agp_text(case["map"]))
+        for attempt in (1, 2):
+            out_dir = d / f"out{attempt}"
+            out_dir.mkdir()
+            args = ["-a", d / "asm.agp", "-p", d / "pretext.agp", "-o", out_dir / "x.agp", "--autosome-prefix", prefix, "--no-write-log", "-l", "ERROR"]
+            code, _, err, exc = cli_gen.run_pretext_to_asm(args)
+            which = f"pretext-to-asm --autosome-prefix {prefix} (run {attempt} of 2 in one process)"
+            if code != 0:
+                problems.append(f"{which} exits with {code}: {((exc or '') + ' ' + (err or '')).strip()[-200:]}")
+                break
+            files = sorted(p.name for p in out_dir.iterdir() if p.name.endswith(".agp"))
+            if files != ["x.1.primary.curated.agp"]:
+                problems.append(f"{which} wrote assembly files {files}, expected only x.1.primary.curated.agp")
+                break
+            got = agp_scaffolds((out_dir / files[0]).read_text())
+            painted_src = {sc[0][0] for sc in case["map"]["scaffolds"]}
+            n_painted = len(painted_src)
+            names = sorted((n for n, _ in got if n not in {s["name"] for s in inp if s["name"] not in painted_src}), key=pg.natural_key)
+            want_names = [f"{prefix}{i}" for i in range(1, n_painted + 1)]
+            if names != want_names:
+                problems.append(f"{which}: painted scaffolds are named {names[:6]}, expected {want_names[:6]}")
+            elif sorted(r for _, r in got) != want:
+                problems.append(f"{which}: content of the written primary assembly differs from the input")
+            else:
+                sizes = [pg.seq_len(r) for n, r in sorted(((n, r) for n, r in got if n in want_names), key=lambda nr: pg.natural_key(nr[0]))]
+                if sizes != sorted(sizes, reverse=True):
+                    problems.append(f"{which}: chromosome numbers do not follow size: sequence lengths in number order {sizes}")
+            if problems:
+                break
+    return problems
+
+
 def check(case, col):
     run = pg.run_case(case)
     if run.error is not None:
         col.fail(f"remapping of an unedited map did not complete ({run.stage}): {run.error_text}", case)
         return
     problems = problems_of(case, run)
+    if case.get("twice"):
+        problems.extend(second_request_problems(run))
+    if case.get("cli"):
+        problems.extend(cli_problems(case))
     if problems:
         col.fail("; ".join(problems[:3]), case)
 
@@ -129,6 +261,72 @@ def shapes(lengths, max_contigs):
     return out
 
 
+C1, S3, C10, S200, S1, C25 = (1, "contig"), (3, "scaffold"), (10, "contig"), (200, "scaffold"), (1, "scaffold"), (25, "contig")
+GAP_KINDS = (C1, S3, C10, S200, S1, C25)
+
+
+def run_scaffold(name, lens, strands, runs, lead, trail, naming, tag):
+    """
+    like pg.make_scaffold, but between two consecutive contigs stands a RUN of gap rows (a tuple of (length, type); () = the
+    contigs abut) and `lead` / `trail` are runs of gap rows in front of the first / behind the last contig
+    """
+    rows = [pg.G(*g) for g in lead]
+    pos = sum(g[0] for g in lead)
+    for j, ln in enumerate(lens):
+        if j:
+            for g in runs[j - 1]:
+                rows.append(pg.G(*g))
+                pos += g[0]
+        if naming == "fasta":
+            rows.append(pg.F(name, pos + 1, pos + ln, strands[j]))
+        elif naming == "own":
+            rows.append(pg.F(f"ctg{tag}{chr(97 + j)}", 1, ln, strands[j]))
+        else:
+            base = 6000 + 3000 * (j % 2)
+            rows.append(pg.F(f"old{tag}{j // 2}", base + 1, base + ln, strands[j]))
+        pos += ln
+    rows.extend(pg.G(*g) for g in trail)
+    return {"name": name, "rows": rows}
+
+
+def gap_run_specs(tier):
+    """
+    the enumerated gap-run geometries (contig lengths, runs between the contigs, leading run, trailing run):
+      * two contigs with every ordered pair of gap kinds between them (quick: 3 kinds, thorough: 6), some runs of three;
+      * three contigs: a run and a single gap / abutting contigs / a second run, in both orders;
+      * runs of 1-2 gap rows in front of the first and / or behind the last contig, with a single gap, a run or nothing between.
+    The last contig is 40 or 150 bp, at least one texel at every texel size used.
+    """
+    quick = tier == "quick"
+    kinds = (C1, S3, C10) if quick else GAP_KINDS
+    specs = []
+    for pair_i, lens in enumerate(((7, 40), (150, 40)) if quick else ((7, 40), (150, 40), (40, 150), (1, 150))):
+        for g1 in kinds:
+            for g2 in kinds:
+                if quick and pair_i == 1 and g1 == g2:
+                    continue
+                specs.append((lens, [(g1, g2)], (), ()))
+    triples = [(C1, S3, C10), (S3, S3, S3), (S200, C1, S200), (C10, S1, C1), (C25, S200, S3), (C1, C1, C1)]
+    for t in triples[: 2 if quick else 6]:
+        specs.append(((40, 150), [t], (), ()))
+    first = [(C1, S3), (S200, C10)] if quick else [(C1, S3), (S200, C10), (S3, C1), (C10, C10), (C1, S3, C10)]
+    second = [(), (S3,), (C10, C1)] if quick else [(), (S3,), (C1,), (C10, C1), (S3, S200)]
+    for r1 in first:
+        for r2 in second:
+            specs.append(((40, 7, 40), [r1, r2], (), ()))
+            specs.append(((7, 150, 40), [r2, r1], (), ()))
+    terminal = [(S3,), (C1, S3)] if quick else [(S3,), (C1,), (C1, S3), (S200, C10), (C10, C10, S3)]
+    for t in terminal:
+        for mid in ((C10,), (C1, S3)):
+            specs.append(((7, 40), [mid], t, ()))
+            specs.append(((7, 40), [mid], (), t))
+            specs.append(((40, 40), [mid], t, tuple(reversed(t))))
+        specs.append(((150,), [], t, ()))
+        specs.append(((40,), [], (), t))
+        specs.append(((40,), [], t, t))
+    return specs
+
+
 def run(tier, seed, **opts):
     rng = random.Random(seed)
     col = Collector(
@@ -136,18 +334,30 @@ def run(tier, seed, **opts):
         "all unpainted/untagged or all painted; (a) every single-scaffold input of <= 2 contigs over the length set x 4 "
         "texel sizes x floor/ceil x absent/present x painted/unpainted inside the side condition, (b) every ordered pair "
         "of a reduced shape set, (c) seeded inputs of 2-12 scaffolds x <= 4 contigs; three contig naming styles, input via "
-        "objects/AGP/TPF; oracle: row-by-row identity with the input; non-trivial = distinct case in which at least one "
+        "objects/AGP/TPF; (d) enumerated and (e) seeded inputs with runs of 2-3 consecutive gap rows between contigs and gap rows in front of the "
+        "first / behind the last contig; oracle: row-by-row identity with the input (terminal gap rows dropped), painted names = prefix + rank by "
+        "amount of sequence, also on a second request and through the command line with --autosome-prefix; non-trivial = distinct case in which at least one "
         "scaffold's texel rounding is not exact or a scaffold is absent"
     )
     quick = tier == "quick"
     namings = ("own", "fasta", "offset")
     n = 0
-    stats = {"single": 0, "pairs": 0, "random": 0, "skipped_outside_domain": 0}
+    stats = {"single": 0, "pairs": 0, "random": 0, "gapruns": 0, "random_gapruns": 0, "all_painted": 0, "cli": 0, "skipped_outside_domain": 0}
+    cli_every = 400 if quick else 1500
 
     def one(case, fam, nontrivial):
         nonlocal n
         n += 1
         case["yaml"] = n % 53 == 0
+        scs = case["map"]["scaffolds"]
+        if scs and all("Painted" in sc[0][4] for sc in scs):
+            stats["all_painted"] += 1
+            if stats["all_painted"] % 7 == 1:
+                case["twice"] = True
+            if stats["all_painted"] % cli_every == 3:
+                case["cli"] = True
+                case["prefix"] = ("chr", "SUPER_", "CHR_", "Super")[(stats["all_painted"] // cli_every) % 4]
+                stats["cli"] += 1
         check(case, col)
         stats[fam] += 1
         col.case(pg.case_key(case), nontrivial=nontrivial, sample={"family": fam, **case} if n % 2999 == 0 else None)
@@ -222,12 +432,58 @@ def run(tier, seed, **opts):
         prefix = rng.choice(("SUPER_", "SUPER_", "chr", "CHR_"))
         for roundings, absent, painted in variants(inp, bpt):
             one(null_map(inp, bpt, roundings, absent, painted, prefix=prefix, via=pg.pick_via(inp, idx)), "random", inexact(inp, bpt, absent))
+    # (d) runs of gap rows between contigs, terminal gap rows: enumerated geometries, alone or next to a sub-texel scaffold
+    for si, (lens, runs, lead, trail) in enumerate(gap_run_specs(tier)):
+        if col.full:
+            break
+        k = len(lens)
+        sp = pg.strand_patterns(k)[si % (2 if k == 1 else 4)]
+        for bi, bpt in enumerate(pg.BPTS):
+            idx += 1
+            inp = [run_scaffold("scaffold_1", lens, sp, runs, lead, trail, namings[idx % 3], "1")]
+            if (si + bi) % 3 == 0:
+                inp.append(pg.make_scaffold("scaffold_2", (2, 2) if bpt > 7 else (1,), None, [C1] if bpt > 7 else None, "own", tag="2"))
+            elif (si + bi) % 3 == 1 and not quick:
+                inp.append(run_scaffold("scaffold_2", (40, 40), (1, -1), [(S3, C1)], (), (C1,), "own", "2"))
+            if not in_domain(inp, bpt):
+                stats["skipped_outside_domain"] += 1
+                continue
+            for roundings, absent, painted in variants(inp, bpt):
+                one(null_map(inp, bpt, roundings, absent, painted, prefix=("SUPER_", "chr")[idx % 2], via=pg.pick_via(inp, idx)), "gapruns", inexact(inp, bpt, absent))
+    # (e) seeded inputs with runs of gap rows
+    for _ in range(150 if quick else 8000):
+        if col.full:
+            break
+        bpt = rng.choice(pg.BPTS)
+        inp = []
+        for si in range(rng.choice((1, 2, 2, 3, 4))):
+            nc = rng.randint(1, 4)
+            lt = [rng.choice((1, 2, 7, 40, 150)) for _ in range(nc)]
+            if sum(lt) >= bpt and lt[-1] < bpt:
+                lt[-1] = rng.choice((40, 150))
+            runs = [tuple(rng.choice(GAP_KINDS) for _ in range(rng.choice((0, 1, 2, 2, 2, 3)))) for _ in range(nc - 1)]
+            lead = tuple(rng.choice(GAP_KINDS) for _ in range(rng.choice((0, 0, 0, 1, 2))))
+            trail = tuple(rng.choice(GAP_KINDS) for _ in range(rng.choice((0, 0, 0, 1, 2))))
+            if sum(lt) + sum(g[0] for r in (*runs, lead, trail) for g in r) < bpt:
+                runs = [r[:1] for r in runs]  # shorter than a texel: single gap rows only (side condition, see the docstring)
+            sp = [rng.choice((1, -1)) for _ in range(nc)]
+            inp.append(run_scaffold(f"scaffold_{si + 1}", lt, sp, runs, lead, trail, rng.choice(namings), str(si + 1)))
+        if not in_domain(inp, bpt):
+            stats["skipped_outside_domain"] += 1
+            continue
+        idx += 1
+        prefix = rng.choice(("SUPER_", "SUPER_", "chr", "CHR_"))
+        for roundings, absent, painted in variants(inp, bpt):
+            one(null_map(inp, bpt, roundings, absent, painted, prefix=prefix, via=pg.pick_via(inp, idx)), "random_gapruns", inexact(inp, bpt, absent))
     return col.result(
         bounds=(
             "contig lengths {1,2,7,40,150,1000}, gaps none/1/10/20/25/200, both strands, texel sizes {1,2.5,10,33.3}; "
             "single scaffolds of <= 2 contigs: all; pairs of scaffolds over lengths {1,7,40}: all (thorough) / seeded 12 % (quick); "
             "seeded inputs of 2-12 scaffolds x <= 4 contigs; floor/ceil per scaffold, every subset of <= 2 sub-texel scaffolds "
-            "absent; prefixes SUPER_/chr/CHR_; " + ", ".join(f"{k}={v}" for k, v in stats.items())
+            "absent; prefixes SUPER_/chr/CHR_; gap-run families: 2-3 contigs with runs of 2-3 gap rows between them (every ordered pair of "
+            "3 (quick) / 6 (thorough) gap kinds), runs of 1-3 gap rows in front of the first / behind the last contig, seeded inputs of 1-4 scaffolds x <= 4 "
+            "contigs with runs of 0-3 gap rows, x 4 texel sizes x floor/ceil x painted/unpainted; every 7th all-painted case asked twice for its output, "
+            f"{stats['cli']} all-painted cases run twice through the command line with --autosome-prefix chr/SUPER_/CHR_/Super; " + ", ".join(f"{k}={v}" for k, v in stats.items())
         ),
         exhaustive=False,
     )
